@@ -243,3 +243,11 @@ def c11_shared_ancestor_total(ctx, v):
             rets += 1
     v.covers_total += 1
     v.covers_sat += 1 if rets else 0
+
+
+def c11_fetched_block_decoder_total(ctx, v):
+    """VerificationThread::verify_block hands the bytes a peer served to
+    Block::deserialize_from_net: for every buffer the decoder returns Ok or Err (same obligation
+    as C10 c10_m_block; verify_block's own handling of both outcomes is c11_verify_block_total)."""
+    from . import obl_c10
+    obl_c10.c10_m_block(ctx, v)
